@@ -99,6 +99,28 @@ func runAssumeCase(o *Oracle, d json.RawMessage, oc *Outcome) {
 		oc.Tag("base-parse-unsat")
 	}
 	s := solver.New(pb)
+	// refinement through GS.Cdcl with assume events; the lines emitted during Assume itself
+	// echo the assumed literals (addLearnedUnit) and are not learn events
+	replay := pb.Status != solver.Unsat
+	var events []string
+	drain := func(keep bool) {}
+	if replay {
+		s.Certified = true
+		s.CertChan = make(chan string, 1<<16)
+		drain = func(keep bool) {
+			for {
+				select {
+				case line := <-s.CertChan:
+					if cl, ok := parseCertLine(line); ok && keep && len(cl) > 0 {
+						events = append(events, evLearn(cl))
+					}
+				default:
+					return
+				}
+			}
+		}
+		oc.Tag("cdcl-replay")
+	}
 	base := cnfLins(c.Cnf)
 	verdicts := map[solver.Status]bool{}
 	for i, a := range c.Rounds {
@@ -110,8 +132,20 @@ func runAssumeCase(o *Oracle, d json.RawMessage, oc *Outcome) {
 		}
 		entry := "solver.Assume+Solve"
 		st := s.Assume(lits)
+		drain(false)
+		if len(a) == 0 {
+			events = append(events, "S")
+		} else {
+			events = append(events, "S "+encInts(a))
+		}
 		if st != solver.Unsat {
 			st = s.Solve()
+		}
+		drain(true)
+		if st == solver.Sat {
+			events = append(events, evModel(s.Model()))
+		} else if st == solver.Unsat {
+			events = append(events, "U")
 		}
 		truth := o.Sat(n, sem)
 		verdicts[st] = true
@@ -132,6 +166,12 @@ func runAssumeCase(o *Oracle, d json.RawMessage, oc *Outcome) {
 			}
 		default:
 			oc.Fail("spec", "never-indet", entry, "round %d: status %v", i, st)
+		}
+	}
+	if replay {
+		oc.Corr++
+		if r := cdclReplay(o, n, c.Cnf, events); r != "ok" {
+			oc.Fail("corr", "cdcl-refinement", "solver.Assume+Solve", "the rounds are not a run of the abstract machine GS.Cdcl: %s (events %v)", r, events)
 		}
 	}
 	if len(verdicts) > 1 || s.Stats.NbConflicts > 0 {
